@@ -181,6 +181,7 @@ pub fn run(ctx: &Ctx) {
                 trap: false,
                 syntax_error_after: None,
                 with_readonly: false,
+                monitor: false,
             };
             let text = ctlrun::render(&p, &mut rng);
             let opts = Opts {
